@@ -76,10 +76,10 @@ def wrappedSignedDiv (a b : SI) : R SI :=
       else do pure (← pyFloorDiv (sg a.ub) (sg b.lb), ← pyFloorDiv (sg a.lb) (sg b.ub))
     pure (SI.new bits 1 lb ub)
 
-/-- Python `set` of intervals: equal hash (bits, lb, ub, stride — not the bottom flag) means equal element;
-keeps the first of each -/
+/-- Python `set` of intervals: equal hash (bits, lb, ub, stride, bottom flag) means equal element (`__eq__` returns
+a truthy BoolResult); keeps the first of each -/
 def dedupe (l : List SI) : List SI :=
-  l.foldl (fun acc x => if acc.any (fun y => y.bits == x.bits && y.lb == x.lb && y.ub == x.ub && y.stride == x.stride) then acc else acc ++ [x]) []
+  l.foldl (fun acc x => if acc.any (fun y => y.bits == x.bits && y.lb == x.lb && y.ub == x.ub && y.stride == x.stride && y.bottom == x.bottom) then acc else acc ++ [x]) []
 
 /-- reorder the distinct elements as the recorded set iteration order says (indices into the insertion order) -/
 def permute (l : List SI) (order : List Nat) : Option (List SI) :=
